@@ -21,6 +21,7 @@ func init() {
 		},
 		Run: runC31,
 		Controls: []Control{
+			{Name: "refactor-three-way-result-in-local", Silent: true, File: "protocols/isis/server/neighbor.go", Old: "\tif n.getState() != packet.P2PAdjStateUp && n.p2pAdjTLVContainsSelf(p2pAdjState) {", New: "\tnamesUs := n.p2pAdjTLVContainsSelf(p2pAdjState)\n\tif n.getState() != packet.P2PAdjStateUp && namesUs {"},
 			{Name: "up-without-three-way-check", File: "protocols/isis/server/neighbor.go", Old: "\tif n.getState() != packet.P2PAdjStateUp && n.p2pAdjTLVContainsSelf(p2pAdjState) {", New: "\tif n.getState() != packet.P2PAdjStateUp {", Expect: "up-requires-three-way"},
 			{Name: "circuit-id-not-compared", File: "protocols/isis/server/neighbor.go", Old: "\treturn t.NeighborSystemID == n.nm.netIfa.srv.nets[0].SystemID && t.NeighborExtendedLocalCircuitID == uint32(n.nm.netIfa.devStatus.GetIndex())", New: "\treturn t.NeighborSystemID == n.nm.netIfa.srv.nets[0].SystemID", Expect: "up-requires-three-way"},
 			{Name: "hold-timer-from-local-config", File: "protocols/isis/server/neighbor.go", Old: "\tn.updateTimeout(clock.Now().Add(time.Second * time.Duration(hello.HoldingTimer)))", New: "\tn.updateTimeout(clock.Now().Add(time.Second * time.Duration(n.nm.netIfa.cfg.holdingTimer())))", Expect: "hold-timer-from-hello"},
@@ -61,7 +62,7 @@ func runC31(c *core.Ctx) {
 			nUp++
 			ok := false
 			for _, ft := range core.CtlFactsAt(f, call) {
-				if cl, isC := core.Unparen(ft.Expr).(*ast.CallExpr); isC && ft.Truth && core.Callee(f.Pkg, cl) == contains.Obj {
+				if cl := core.CallOf(f, ft.Expr); cl != nil && ft.Truth && core.Callee(f.Pkg, cl) == contains.Obj {
 					ok = true
 				}
 			}
@@ -120,7 +121,7 @@ func runC31(c *core.Ctx) {
 		}
 		ok := false
 		for _, ft := range core.CtlFactsAt(proc, call) {
-			if cl, isC := core.Unparen(ft.Expr).(*ast.CallExpr); isC && !ft.Truth && core.Callee(proc.Pkg, cl) == contains.Obj {
+			if cl := core.CallOf(proc, ft.Expr); cl != nil && !ft.Truth && core.Callee(proc.Pkg, cl) == contains.Obj {
 				ok = true
 			}
 		}
@@ -183,7 +184,7 @@ func runC31(c *core.Ctx) {
 			okDown := false
 			for _, dc := range core.Calls(checker.Pkg, checker.Decl.Body, func(o *types.Func) bool { return o == down.Obj }) {
 				for _, ft := range core.CtlFactsAt(checker, dc) {
-					if cl, isC := core.Unparen(ft.Expr).(*ast.CallExpr); isC && ft.Truth && core.Callee(checker.Pkg, cl) == timedOut.Obj {
+					if cl := core.CallOf(checker, ft.Expr); cl != nil && ft.Truth && core.Callee(checker.Pkg, cl) == timedOut.Obj {
 						okDown = true
 					}
 				}
